@@ -278,7 +278,9 @@ Qed.
 Theorem write_good : forall fuel done t, wf t ->
   forall x y w h rs, 0 <= w -> 0 <= h -> write fuel done t x y w h = inl rs -> good x y w h rs.
 Proof.
-  intros fuel done. induction t as [id wd hd|o al pad kids IH] using tree_ind'; intros Hwf x y w h rs Hw Hh Hr.
+  intros fuel done. induction t as [id wd hd|o al pad kids IH|id wd len|ow oh t IH] using tree_ind'; intros Hwf x y w h rs Hw Hh Hr;
+    [| |cbn [write] in Hr; injection Hr as <-; split; [constructor; [|constructor]; unfold inside; cbn [rx ry rw rh]; lia|repeat constructor]
+     |cbn [wf] in Hwf; cbn [write] in Hr; apply (IH (proj2 (proj2 Hwf)) x y w h rs Hw Hh Hr)].
   - cbn [write] in Hr. injection Hr as <-. split.
     + constructor; [|constructor]. unfold inside; cbn [rx ry rw rh]. lia.
     + repeat constructor.
